@@ -198,6 +198,9 @@ pub const IO_PALETTE: [std::io::ErrorKind; 6] = [
 pub enum PushOp {
     Finalize,
     Reset,
+    /// usability probe (C05): finalize(), then a canonical frame of this many 0xa5 bytes,
+    /// which must be delivered exactly at its last byte; allocation failure is not injected
+    Probe(u8),
 }
 
 // ---------------------------------------------------------------------------
@@ -673,6 +676,24 @@ pub fn drive_push<B: Buffer>(
                         out.push(Obs {
                             pos: i,
                             item: Item::Reset(n),
+                        });
+                    }
+                    PushOp::Probe(k) => {
+                        let _ = d.finalize();
+                        let payload = vec![0xa5u8; k as usize];
+                        let frame = crate::refenc::refenc(&payload);
+                        let mut verdict = String::new();
+                        for (j, b) in frame.iter().enumerate() {
+                            let it = item_of_push(d.push_byte(*b));
+                            let last = j + 1 == frame.len();
+                            let ok = if last { it == Item::Msg(payload.clone()) } else { it == Item::Nothing };
+                            if !ok && verdict.is_empty() {
+                                verdict = format!("probe frame byte {}/{}: {}", j + 1, frame.len(), it.short());
+                            }
+                        }
+                        out.push(Obs {
+                            pos: i,
+                            item: Item::Probe(verdict),
                         });
                     }
                 }
